@@ -6,14 +6,15 @@ CONSTANTS Depth, MaxSize, Rich
 \* ------------------------------------------------------------------ universe
 TA == <<"tv","a">>     SB == <<"stv","b">>
 AA == FunT(TA, TA)     AB == FunT(TA, BoolT)    AAB == FunT(TA, FunT(TA, BoolT))   BB == FunT(BoolT, BoolT)
-B0 == <<"bound", 0>>   B1 == <<"bound", 1>>
+AAAB == FunT(TA, AAB)
+B0 == <<"bound", 0>>   B1 == <<"bound", 1>>   B2 == <<"bound", 2>>
 Lam(T, b) == <<"abs", T, b>>
 \* target atoms ("x" is also the name the replayer gives to binders in one of its routes)
 vx == <<"var","x",TA>>  vy == <<"var","y",TA>>  vf == <<"var","f",AA>>  vh == <<"var","h",AA>>
 vP == <<"var","P",AB>>  vQ == <<"var","Q",AB>>  vR == <<"var","R",AAB>>  vA == <<"var","A",BoolT>>
 \* schematic
 sx == <<"svar","x",TA>>  sy == <<"svar","y",TA>>  sA == <<"svar","A",BoolT>>
-sF == <<"svar","F",AB>>  sf == <<"svar","f",AA>>  sG == <<"svar","G",AAB>>
+sF == <<"svar","F",AB>>  sf == <<"svar","f",AA>>  sG == <<"svar","G",AAB>>  sK == <<"svar","K",AAAB>>
 sz == <<"svar","z",SB>>  sH == <<"svar","H",FunT(SB, BoolT)>>  sk == <<"svar","k",FunT(SB, SB)>>
 EqA(a, b) == App(App(EqC(TA), a), b)
 All(T, body) == App(AllC(T), Lam(T, body))
@@ -52,10 +53,27 @@ Shapes == {
   Imp(App(sH, sz), EqA(sx, sx)),                                     \* ?H ?z --> ?x = ?x
   Lam(SB, App(App(EqC(SB), B0), sz)),                                \* %w::?'b. w = ?z
   App(Lam(TA, App(sF, B0)), sx),                                     \* (%z. ?F z) ?x                  pattern with a redex
+  All(TA, Imp(App(sF, B0), All(TA, App(sF, B0)))),                   \* !z. ?F z --> (!w. ?F w)       the same body at two binder depths
+  Lam(TA, Imp(App(vP, B0), All(TA, App(sF, B1)))),                   \* %z. P z --> (!w. ?F z)         outer bound variable under an inner binder
+  Lam(TA, Imp(App(vP, B0), All(TA, Imp(App(vP, B0), sA)))),          \* %z. P z --> (!w. P w --> ?A)   first-order, nested
+  Lam(TA, Imp(R2(B0, sx), All(TA, R2(B0, sx)))),                     \* %z. R z ?x --> (!w. R w ?x)
   R2(vx, vy), Lam(TA, App(vP, B0))                                   \* ground patterns
 }
+\* ---- mixed-argument applications: a schematic head applied to DISTINCT arguments that are bound variables of the nb enclosing binders
+\* and/or first-order schematic variables -- instantiated earlier in the same pattern (guarded form), by the given instantiation, or not at
+\* all; every selection and order of arguments (so some bound variables are passed, some are not)
+RECURSIVE InjSeqs(_,_), AppSeq(_,_), LamN(_,_)
+InjSeqs(S, n) == IF n = 0 THEN { <<>> } ELSE UNION { { <<a>> \o r : r \in InjSeqs(S \ {a}, n - 1) } : a \in S }
+AppSeq(h, args) == IF args = <<>> THEN h ELSE AppSeq(App(h, Head(args)), Tail(args))
+LamN(n, b) == IF n = 0 THEN b ELSE Lam(TA, LamN(n - 1, b))
+HeadFor(n) == CASE n = 1 -> sF [] n = 2 -> sG [] n = 3 -> sK
+MixArgSeqs(nb, svs) == { a \in UNION { InjSeqs({ <<"bound", k>> : k \in 0..(nb - 1) } \cup svs, n) : n \in 1..3 } : \E i \in 1..Len(a) : a[i][1] = "svar" }
+Guard(a) == LET used == { v \in {sx, sy} : \E i \in 1..Len(a) : a[i] = v } IN
+            IF used = {sx, sy} THEN R2(sx, sy) ELSE App(vP, CHOOSE v \in used : TRUE)
+MixPatterns(nb, svs) == UNION { { LamN(nb, AppSeq(HeadFor(Len(a)), a)), LamN(nb, Imp(Guard(a), AppSeq(HeadFor(Len(a)), a))) } : a \in MixArgSeqs(nb, svs) }
+Mixed == IF Rich THEN MixPatterns(2, {sx, sy}) \cup MixPatterns(3, {sx}) ELSE MixPatterns(2, {sx})
 Patterns == { p \in UNION { Gen(PSig, PArgTypes, T, Depth, <<>>) : T \in PTop } : SVarsOf(p) # {} /\ ~HasRedex(p) /\ Size(p) <= MaxSize }
-            \cup Shapes
+            \cup Shapes \cup Mixed
 \* closed beta-normal instance values by type
 Vals(T) ==
   CASE T = TA -> {vx, vy, App(vf, vx)}
@@ -64,6 +82,7 @@ Vals(T) ==
     [] T = AA -> {vf, Lam(TA, B0), Lam(TA, vy), Lam(TA, App(vf, App(vh, B0)))}
     [] T = AAB -> {vR, Lam(TA, Lam(TA, R2(B0, B1))), Lam(TA, Lam(TA, App(vP, B1))), Lam(TA, App(vR, App(vf, B0)))}
     [] T = BB -> {Lam(BoolT, B0), App(ImpC, App(vP, vx))}
+    [] T = AAAB -> {Lam(TA, vR), Lam(TA, Lam(TA, Lam(TA, R2(B2, B0)))), Lam(TA, Lam(TA, Lam(TA, App(vP, B1))))}
     [] OTHER -> {}
 ValsFew(T) ==
   CASE T = TA -> {vx, App(vf, vx)}
@@ -72,13 +91,14 @@ ValsFew(T) ==
     [] T = AA -> {vf, Lam(TA, vy)}
     [] T = AAB -> {vR, Lam(TA, Lam(TA, R2(B0, B1)))}
     [] T = BB -> {Lam(BoolT, B0)}
+    [] T = AAAB -> {Lam(TA, vR), Lam(TA, Lam(TA, Lam(TA, R2(B2, B0))))}
     [] OTHER -> {}
 RECURSIVE SvAl(_,_,_)
 SvAl(vs, ti, few) == IF vs = <<>> THEN { <<>> }
                      ELSE LET v == Head(vs) T == TSubst(v[3], ti) IN
                           { << <<v[2], val>> >> \o rest : val \in (IF few THEN ValsFew(T) ELSE Vals(T)), rest \in SvAl(Tail(vs), ti, few) }
 TyChoices(p) == IF "b" \in STVNames(p) THEN { << <<"b", TA>> >>, << <<"b", BoolT>> >> } ELSE { <<>> }
-InstsFor(p) == LET vs == SetToSeq(SVarsOf(p)) few == (Len(vs) >= 3) \/ (~Rich /\ Len(vs) >= 2 /\ p \notin Shapes) IN
+InstsFor(p) == LET vs == SetToSeq(SVarsOf(p)) few == (Len(vs) >= 3) \/ (~Rich /\ Len(vs) >= 2 /\ p \notin Shapes \cup Mixed) IN
                UNION { { MkInst(ti, al) : al \in SvAl(vs, ti, few) } : ti \in TyChoices(p) }
 \* one-atom perturbations that keep the term well-typed
 AltVars(v) == { w \in {vx, vy, vf, vh, vP, vQ} : w[3] = v[3] /\ w # v }
@@ -95,8 +115,17 @@ Unrelated == { vx, vA, App(vf, vy), App(vR, vx), R2(vx, vx), vP, Lam(TA, B0), Al
 \* given instantiations
 Restrict1(al, k) == << al[k] >>
 OtherVal(T, val) == LET S == Vals(T) \ {val} IN IF S = {} THEN {} ELSE { CHOOSE s \in S : TRUE }
+\* schematic variables occurring in function position
+RECURSIVE HeadSV(_), HeadOf(_)
+HeadOf(t) == IF t[1] = "comb" THEN HeadOf(t[2]) ELSE t
+HeadSV(p) == CASE p[1] = "comb" -> (IF HeadOf(p)[1] = "svar" THEN {HeadOf(p)[2]} ELSE {}) \cup HeadSV(p[2]) \cup HeadSV(p[3])
+               [] p[1] = "abs" -> HeadSV(p[3])
+               [] OTHER -> {}
+\* the generating instantiation restricted to the variables that never occur in function position ("arguments pre-seeded")
+ArgSeed(p, gi) == LET H == HeadSV(p) a == SelectSeq(gi.sv, LAMBDA b : b[1] \notin H) IN
+                  IF a = <<>> \/ a = gi.sv THEN {} ELSE { <<"args", MkInst(gi.ty, a)>> }
 SeedsPos(p, gi) ==
-  { <<"empty", EmptyInst>>, <<"full", gi>>, <<"extra", MkInst(<< <<"c", TA>> >>, << <<"q", vx>> >>)>> }
+  { <<"empty", EmptyInst>>, <<"full", gi>>, <<"extra", MkInst(<< <<"c", TA>> >>, << <<"q", vx>> >>)>> } \cup ArgSeed(p, gi)
   \cup (IF gi.ty # <<>> THEN { <<"ty", MkInst(gi.ty, <<>>)>>, <<"bad_ty", MkInst(<< <<"b", IF gi.ty[1][2] = TA THEN BoolT ELSE TA>> >>, <<>>)>> } ELSE {})
   \cup { <<"sv1", MkInst(<<>>, Restrict1(gi.sv, k))>> : k \in 1..Len(gi.sv) }
   \cup UNION { { <<"bad_sv", MkInst(gi.ty, << <<gi.sv[k][1], o>> >>)>> : o \in OtherVal(TypeOf(gi.sv[k][2], <<>>), gi.sv[k][2]) } : k \in 1..Len(gi.sv) }
@@ -107,7 +136,9 @@ VectorsOf(p) ==
           \cup (IF raw # pos THEN { V(p, raw, EmptyInst, gi, "raw", "empty") } ELSE {})
           \cup (IF EtaNorm(pos) # pos THEN { V(p, EtaNorm(pos), EmptyInst, gi, "etac", "empty") } ELSE {})
           \cup (IF IsFun(T) THEN { V(p, Lam(T[3][1], App(IncrBound(pos, 0, 1), B0)), EmptyInst, gi, "etax", "empty") } ELSE {})
-          \cup UNION { { V(p, n, EmptyInst, gi, "neg", "empty"), V(p, n, gi, gi, "neg", "full") } : n \in Perturb(pos, <<>>) }
+          \cup UNION { { V(p, n, EmptyInst, gi, "neg", "empty"), V(p, n, gi, gi, "neg", "full") } \cup { V(p, n, sd[2], gi, "neg", sd[1]) : sd \in ArgSeed(p, gi) }
+                       : n \in Perturb(pos, <<>>) }
+          \cup { V(pos, pos, EmptyInst, EmptyInst, "self", "empty") }          \* the instance as a ground pattern against itself
         : gi \in InstsFor(p) }
   \cup { V(p, u, EmptyInst, EmptyInst, "unrel", "empty") : u \in Unrelated }
 
